@@ -4,7 +4,10 @@ it only looks for the exact syntactic shapes listed below and raises Untranslata
 
   format_parser.RESERVED_NAMES            module-level set literal of str
   parse_format_string:  field_pattern = re.compile(r'...')     (pinned: the hand model of the matcher in
-                        re.findall(r'...', description_template)  C18/Model.v is for exactly these texts)
+                                                                  C18/Model.v is for exactly this text)
+                        refs = _template_field_names(description_template)  (the only template scan)
+  _template_field_names: pinned as a whole (AST without the docstring): names of string.Formatter().parse
+                        fields, cut at the first "." or "[", recursing into non-empty format specs
                         parts = [p.strip() for p in format_str.split(',')]   (pinned separator)
                         date_format = '<default>'               first assignment in the function
   parsers.auto_detect_csv_format: DATE_/DESC_/AMOUNT_/LOCATION_PATTERNS list literals of str,
@@ -13,7 +16,24 @@ it only looks for the exact syntactic shapes listed below and raises Untranslata
 import ast
 
 FIELD_PATTERN = r'\{([-+]?)(\w+|\*)(?::([^}]+))?\}'
-TEMPLATE_PATTERN = r'\{(\w+)\}'
+HELPER_REFERENCE = '''
+def _template_field_names(template: str) -> list:
+    names = []
+    for _, field_name, format_spec, _ in string.Formatter().parse(template):
+        if field_name is None:
+            continue
+        names.append(re.split(r'[.\\[]', field_name, maxsplit=1)[0])
+        if format_spec:
+            names.extend(_template_field_names(format_spec))
+    return names
+'''
+
+
+def _body_dump(fn):
+    body = list(fn.body)
+    if body and isinstance(body[0], ast.Expr) and isinstance(body[0].value, ast.Constant) and isinstance(body[0].value.value, str):
+        body = body[1:]
+    return [ast.dump(n) for n in body], ast.dump(fn.args)
 
 
 class Untranslatable(Exception):
@@ -71,11 +91,23 @@ def read_tables(format_parser_py, parsers_py):
             if not (n.args and isinstance(n.args[0], ast.Constant) and isinstance(n.args[0].value, str)):
                 raise Untranslatable(f'format_parser.py:{n.lineno}: re.{n.func.attr} without a literal pattern')
             pats.append((n.func.attr, n.args[0].value, n.lineno))
-    want = {('compile', FIELD_PATTERN), ('findall', TEMPLATE_PATTERN)}
+    want = {('compile', FIELD_PATTERN)}
     got = {(a, p) for a, p, _ in pats}
     if got != want:
         raise Untranslatable(f'format_parser.py: regular expressions changed: {sorted(got)} (the matcher model in '
                              f'C18/Model.v is written for {sorted(want)})')
+    # the template scan: exactly one call _template_field_names(description_template), and the helper is the pinned one
+    calls = [n for n in ast.walk(fn) if isinstance(n, ast.Call) and isinstance(n.func, ast.Name)
+             and n.func.id == '_template_field_names']
+    if len(calls) != 1 or len(calls[0].args) != 1 or not isinstance(calls[0].args[0], ast.Name) \
+            or calls[0].args[0].id != 'description_template' or calls[0].keywords:
+        raise Untranslatable('format_parser.py: parse_format_string must scan the template with exactly one '
+                             '_template_field_names(description_template)')
+    helper = _fn(tree, '_template_field_names', 'format_parser.py')
+    ref = _fn(ast.parse(HELPER_REFERENCE), '_template_field_names', 'reference')
+    if _body_dump(helper) != _body_dump(ref):
+        raise Untranslatable('format_parser.py: _template_field_names differs from the pinned helper (string.Formatter().parse '
+                             'fields, name cut at "." or "[", recursion into non-empty format specs)')
     # pinned separator: format_str.split(',')
     seps = [n for n in ast.walk(fn) if isinstance(n, ast.Call) and isinstance(n.func, ast.Attribute)
             and n.func.attr == 'split']
